@@ -464,3 +464,66 @@ def quantifier_of(fn):
         if not neg and inner == "True" and final == "False":
             return "any", elt, U(lp.iter), U(lp.target)
     return None
+
+
+class NotConstant(Exception):
+    pass
+
+
+def fold_str_expr(e, env):
+    """Constant folding of a pure string expression over given values of its free names (the program is not run: only literal operands and the
+    str/list operations named here are folded).  Raises NotConstant for anything else."""
+    STR_METHODS = ("lower", "upper", "strip", "lstrip", "rstrip", "split", "rsplit", "partition", "rpartition", "replace", "startswith", "endswith",
+                   "removeprefix", "removesuffix", "title", "capitalize", "casefold", "swapcase", "find", "index", "join")
+
+    def go(x):
+        if isinstance(x, ast.Constant) and isinstance(x.value, (str, int, bool, type(None))):
+            return x.value
+        if isinstance(x, ast.Name):
+            if x.id in env:
+                return env[x.id]
+            raise NotConstant(x.id)
+        if isinstance(x, (ast.Tuple, ast.List)):
+            return [go(i) for i in x.elts]
+        if isinstance(x, ast.BinOp) and isinstance(x.op, (ast.Add, ast.Sub, ast.Mult)):
+            a, b = go(x.left), go(x.right)
+            try:
+                return a + b if isinstance(x.op, ast.Add) else a - b if isinstance(x.op, ast.Sub) else a * b
+            except Exception:
+                raise NotConstant(U(x))
+        if isinstance(x, ast.UnaryOp) and isinstance(x.op, ast.USub):
+            return -go(x.operand)
+        if isinstance(x, ast.Subscript):
+            v = go(x.value)
+            sl = x.slice
+            try:
+                if isinstance(sl, ast.Slice):
+                    return v[(go(sl.lower) if sl.lower is not None else None):(go(sl.upper) if sl.upper is not None else None):(go(sl.step) if sl.step is not None else None)]
+                return v[go(sl)]
+            except NotConstant:
+                raise
+            except Exception:
+                raise NotConstant("subscript fails: %s" % U(x))
+        if isinstance(x, ast.Call) and isinstance(x.func, ast.Name) and x.func.id in ("len", "str") and len(x.args) == 1 and not x.keywords:
+            v = go(x.args[0])
+            return len(v) if x.func.id == "len" else str(v)
+        if isinstance(x, ast.Call) and isinstance(x.func, ast.Attribute) and x.func.attr in STR_METHODS and not x.keywords:
+            recv = go(x.func.value)
+            if not isinstance(recv, str):
+                raise NotConstant("receiver of .%s is not a string" % x.func.attr)
+            if x.func.attr in ("removeprefix", "removesuffix") and not hasattr(recv, x.func.attr):
+                a = go(x.args[0])
+                if x.func.attr == "removeprefix":
+                    return recv[len(a):] if recv.startswith(a) else recv
+                return recv[:-len(a)] if a and recv.endswith(a) else recv
+            try:
+                r = getattr(recv, x.func.attr)(*[go(a) for a in x.args])
+            except NotConstant:
+                raise
+            except Exception:
+                raise NotConstant("str.%s fails" % x.func.attr)
+            return list(r) if isinstance(r, tuple) else r
+        if isinstance(x, ast.IfExp):
+            return go(x.body) if go(x.test) else go(x.orelse)
+        raise NotConstant(U(x)[:60])
+    return go(e)
